@@ -252,6 +252,27 @@ def section_herm():
         for fmt in ("dense", "sparse"):
             pb = Problem(E, sub, seed=66, fmt=fmt)
             check_problem("herm", pb, 2, fully=fully, tol=1e-13, label=f"large-energies/{E}/{fmt}")
+    # weak perturbations: scaling H_1 by eps = 2^-k scales every order-n block of H_tilde, U, U^dagger by eps^n exactly (powers of two), so
+    # errors stay proportional to the size of the terms at every order - no absolute cut-off may enter anywhere
+    for E, sub, fully in (([0.0, 1.0, 3.0, 4.5], [0, 0, 1, 1], ()), ([0.0, 1.0, 2.5, 4.0], [0, 0, 0, 0], ()), ([0.0, 1.0, 3.0, 4.5, 7.0], [0, 0, 1, 1, 2], (2, 0))):
+        for fmt in ("dense", "sparse"):
+            pb = Problem(E, sub, seed=91, fmt=fmt)
+            kw = {"fully_diagonalize": tuple(fully)} if fully else {}
+            ref = block_diagonalize(pb.hamiltonian(), subspace_indices=pb.sub, **kw)
+            for k in (13, 20):
+                cases += 1
+                eps = 2.0 ** -k
+                pbw = Problem(E, sub, seed=91, fmt=fmt)
+                pbw.terms = {o: eps * m for o, m in pb.terms.items()}
+                oth = block_diagonalize(pbw.hamiltonian(), subspace_indices=pb.sub, **kw)
+                for o in range(0, 6 if fmt == "dense" else 5):
+                    for sidx, nm in enumerate(("H_tilde", "U", "U_dagger")):
+                        want = eps ** o * pb.assemble(ref[sidx], (o,))
+                        got = pbw.assemble(oth[sidx], (o,))
+                        size = max(np.abs(want).max(), eps ** o)
+                        if np.abs(got - want).max() > 1e-10 * size:
+                            fail("herm", f"{nm} for a perturbation scaled by 2^-{k} is not 2^-{k}n times the unscaled result (error not proportional to the size of the terms)",
+                                 layout=(E, sub, fully), fmt=fmt, order=o, err=float(np.abs(got - want).max()), size=float(size))
     # chain of near-degeneracies with a large tolerance (kept pattern not transitive)
     pb = Problem([0.0, 0.1, 0.2, 1.0, 2.0], [0, 0, 0, 0, 0], seed=3)
     check_problem("herm", pb, 3, fully=(0,), atol=0.15, label="chain/atol0.15")
